@@ -1,4 +1,5 @@
-"""./check setup: regenerate all facts, build the Lean library, every harness binary and plz."""
+"""./check setup: regenerate all facts, build the Lean library, every harness binary and plz.
+Only CLAIMED checks can fail the setup; work in progress (CLAIMED = False) is built best-effort."""
 import glob, os, re, sys, importlib
 from . import core
 
@@ -7,30 +8,42 @@ def all_ids():
     return sorted(os.path.basename(p)[:-3] for p in glob.glob(os.path.join(core.VERIF, "checks", "C*.py")))
 
 
+def load_specs():
+    out = []
+    for pid in all_ids():
+        try:
+            m = importlib.import_module("checks." + pid)
+        except Exception as e:
+            print(f"WARNING: checks/{pid}.py does not load: {e}")
+            continue
+        if hasattr(m, "SPEC"):
+            out.append((m.SPEC, bool(getattr(m, "CLAIMED", True))))
+    return out
+
+
 def main():
     rc = 0
-    specs = []
-    for pid in all_ids():
-        m = importlib.import_module("checks." + pid)
-        specs.append(m.SPEC)
-    ex = sorted({e for s in specs for e in s.get("extract", [])})
-    st, detail = core.extract_facts(ex)
-    print("facts:", st, detail)
-    mods = sorted({s["props"][:-5].replace("/", ".") for s in specs})
-    for s in specs:
-        if s.get("driver"):
-            src = open(os.path.join(core.LEAN, s["driver"])).read()
+    specs = load_specs()
+    for spec, claimed in specs:
+        tag = spec["id"] + ("" if claimed else " (unclaimed)")
+        st, detail = core.extract_facts(spec.get("extract", []))
+        if st == "unreadable":
+            print(f"{tag}: facts unreadable: {detail}")
+        mods = [spec["props"][:-5].replace("/", ".")]
+        if spec.get("driver"):
+            src = open(os.path.join(core.LEAN, spec["driver"])).read()
             mods += re.findall(r"^\s*import\s+(PlzVerif[\w.]*)", src, re.M)
-    r, out = core.lake_build(sorted(set(mods)))
-    print("lake build:", r)
-    if r != 0:
-        print(out[-3000:]); rc = 1
-    for h in sorted({s["harness"] for s in specs if s.get("harness")}):
-        r, out, _ = core.build_harness(h)
-        print("harness", h, r)
+        r, out = core.lake_build(sorted(set(mods)))
         if r != 0:
-            print(out[-2000:]); rc = 1
-    if any(s.get("needs_plz") for s in specs):
+            print(f"{tag}: lake build failed\n{out[-1500:]}")
+            rc |= 1 if claimed else 0
+        if spec.get("harness"):
+            r, out, _ = core.build_harness(spec["harness"])
+            if r != 0:
+                print(f"{tag}: harness build failed\n{out[-1500:]}")
+                rc |= 1 if claimed else 0
+        print(f"{tag}: setup ok" if r == 0 else f"{tag}: setup FAILED")
+    if any(s.get("needs_plz") for s, _ in specs):
         r, out, _ = core.build_plz()
         print("plz:", r)
         if r != 0:
